@@ -509,7 +509,7 @@ fn o_trunc_t(unit: i64, y: i32, m: u32, d: u32, n: i32) -> i32 {
     }
 }
 
-//@ unit s10_date prop=C10,C02,C03 qsel=C02:0+1+3+4+5+6+7+8+9+10+11;C03:0+1+3+4+5+6+7+8+9+10+11 engine=smt chunks=tuples:0,1,9999;1,1,9999;2,1,9999;3,1,9999;4,1,9999;5,1,9999;6,1,9999;7,1,9999;8,1,9999;9,1,9999;10,1,9999;11,1,9999 quick=all timeout=3000 mem=4 bound="Date truncation to the unit given by the first parameter (0 century .. 11 minute) for every real date of the years given by the other two (together 0001-01-01..9999-12-31; three symbolic integers): the result is the start of the unit containing the date, DateOutOfRange iff that start precedes 0001-01-01; Date::extract is replaced by its contract for the date under test (decided by C01)"
+//@ unit s10_date prop=C10,C02,C03 qsel=C02:0+1+3+4+5+6+7+8+9+10+11;C03:0+1+3+4+5+6+7+8+9+10+11;C10:0+1+3+4+5+6+7+8+9+10+11 engine=smt chunks=tuples:0,1,9999;1,1,9999;2,1,9999;3,1,9999;4,1,9999;5,1,9999;6,1,9999;7,1,9999;8,1,9999;9,1,9999;10,1,9999;11,1,9999 quick=all timeout=3000 mem=4 bound="Date truncation to the unit given by the first parameter (0 century .. 11 minute) for every real date of the years given by the other two (together 0001-01-01..9999-12-31; three symbolic integers): the result is the start of the unit containing the date, DateOutOfRange iff that start precedes 0001-01-01; Date::extract is replaced by its contract for the date under test (decided by C01)"
 fn s10_date(unit: i64, ylo: i32, yhi: i32) {
     let y: i32 = kani::any();
     let m: u32 = kani::any();
@@ -538,7 +538,7 @@ fn s10_date(unit: i64, ylo: i32, yhi: i32) {
     }
 }
 
-//@ unit s11_date prop=C11,C02,C03 qsel=C02:0+1+3+4+5+6+7+8+9+10+11;C03:0+1+3+4+5+6+7+8+9+10+11 engine=smt chunks=tuples:0,1,9999;1,1,9999;2,1,9999;3,1,9999;4,1,9999;5,1,9999;6,1,9999;7,1,9999;8,1,9999;9,1,9999;10,1,9999;11,1,9999 quick=all timeout=3000 mem=4 bound="Date rounding to the unit given by the first parameter for every real date of the years given by the other two: the documented neighbour, DateOutOfRange iff it lies outside 0001-01-01..9999-12-31; for the century unit the years divisible by 100 are excluded here (c11_century_y00_*); Date::extract under its contract"
+//@ unit s11_date prop=C11,C02,C03 qsel=C02:0+1+3+4+5+6+7+8+9+10+11;C03:0+1+3+4+5+6+7+8+9+10+11;C11:0+1+3+4+5+6+7+8+9+10+11 engine=smt chunks=tuples:0,1,9999;1,1,9999;2,1,9999;3,1,9999;4,1,9999;5,1,9999;6,1,9999;7,1,9999;8,1,9999;9,1,9999;10,1,9999;11,1,9999 quick=all timeout=3000 mem=4 bound="Date rounding to the unit given by the first parameter for every real date of the years given by the other two: the documented neighbour, DateOutOfRange iff it lies outside 0001-01-01..9999-12-31; for the century unit the years divisible by 100 are excluded here (c11_century_y00_*); Date::extract under its contract"
 fn s11_date(unit: i64, ylo: i32, yhi: i32) {
     let y: i32 = kani::any();
     let m: u32 = kani::any();
